@@ -17,9 +17,10 @@ Theorem C01_refuted_stolen_worker_wedges_pool :
 Proof. exists c01_witness. vm_compute. repeat split; auto. eexists; reflexivity. Qed.
 
 (** * One pool: every well-formed history (any length, any task bodies, cancels, cleans, waits, stops,
-    clock steps), the oracle applied to the model's own run. [wf_pool1t] = [wf_pool1] (min = 0,
-    keep-alive = 0, max >= 1, operations on pool 0, task ids submitted, acceptable bodies, clock
-    monotone) and every stop timeout <= u64::MAX. *)
+    clock steps), the oracle applied to the model's own run. [wf_pool1t] = [wf_pool1] (min = 0, ANY
+    keep-alive time, max >= 1, 0 <= clock, operations on pool 0, task ids submitted, acceptable bodies,
+    clock monotone) and, when a keep-alive is configured, a clock that stays below u64::MAX (an idle
+    worker waits its keep-alive out in 1 ms naps; at the end of time it would nap for ever). *)
 Theorem C01_single_pool : forall clock cfg ops, wf_pool1t clock cfg ops = true ->
   po_c01 (fst (self_flags clock [cfg] ops)) = true.
 Proof. exact c01_model1. Qed.
